@@ -91,6 +91,13 @@ CLAIMED = {
         "is raised by the time all rows are read, a FormatException names the offending line, and that line number equals the one from a whole-file read.",
         "Holds on the explored region only. For column-count violations the admissible line numbers are p and p+1 (which of two disagreeing lines offends is not determined by the file) and the cross-configuration comparison is not applied to them.",
         "exhaustive enumeration + Hypothesis sampling of injected faults; oracle = must-raise + line-number invariant across configurations"),
+    "C16": (
+        "Generated BAM files from an independent specification-level encoder (struct + gzip, single- and multi-member): every decoded field of "
+        "every record is compared with the generated value for lazy, eager and chunked reading (every admissible chunk size for small files), "
+        "reference intervals from CIGAR and flag, and whole / filtered / reordered writing (decoded records and raw record bytes). The "
+        "repository's example BAM is decoded and compared with its SAM text as a cross-check of the encoder.",
+        "Holds on the explored region only. The encoder is ours (pbt/bamenc.py); the example-file cross-check guards against a shared misreading of the specification.",
+        "Hypothesis generation through an independent encoder, round-trip / reference oracle + differential (chunked vs whole)"),
     "C17": (
         "Exhaustive over every FASTA of 1 record (2 or 3 thorough) with lengths up to 7 and per-record wrap widths up to 8, crossed with every "
         "interval [a, b) of every record, for library-built and model-supplied indexes and files with and without a final newline; Hypothesis "
